@@ -55,15 +55,14 @@ def psuedo_equilibrium_inner_loop(logKgammay, z, T, n, f_gamma, gamma_args, phi)
     K = np.exp(logKgammay[:n])
     x = z/(1. + phi * (K - 1.))
     x = x / x.sum()
-    gammay = logKgammay[n:]
+    gammay = np.exp(logKgammay[n:])
     gammax = f_gamma(x, T, *gamma_args)
     K = gammax / gammay 
     y = K * x
     y /= y.sum()
     gammay = f_gamma(y, T, *gamma_args)
     K = gammax / gammay
-    logKgammay_new[n:] = np.log(K)
-    logKgammay_new[n:] = gammay
+    logKgammay_new[n:] = np.log(gammay)
     return logKgammay_new
 
 def pseudo_equilibrium_outer_loop(logKgammayphi, z, T, n, f_gamma, gamma_args, inner_loop_options):
@@ -98,7 +97,7 @@ def pseudo_equilibrium(K, phi, z, T, n, f_gamma, gamma_args, inner_loop_options,
     y = K * x
     logKgammayphi = np.zeros(2*n + 1)
     logKgammayphi[:n] = np.log(K)
-    logKgammayphi[n:-1] = f_gamma(y, T, *gamma_args)
+    logKgammayphi[n:-1] = np.log(f_gamma(y, T, *gamma_args))
     logKgammayphi[-1] = phi
     try:
         logKgammayphi = flx.aitken(
@@ -338,7 +337,7 @@ class LLE(Equilibrium, phases='lL'):
                 y = K * x
                 Kgammayphi = np.zeros(2*n + 1)
                 Kgammayphi[:n] = K
-                Kgammayphi[n:-1] = f_gamma(y, T, *gamma_args)
+                Kgammayphi[n:-1] = np.log(f_gamma(y, T, *gamma_args))
                 Kgammayphi[-1] = phi
                 Kgammay = Kgammayphi[:-1]
                 phi = Kgammayphi[-1]
